@@ -67,7 +67,7 @@ class Cfg:
 
     def __init__(self, N=3, T=3, dims=(), scale=(), use_scale=True, reg_cust=False,
                  per_axis_pos=False, name="struct", enable=(), rebuild=None, embed=None, max_stroke=0, node_shift=0,
-                 seg_dtype="uint16", formats=None, custom_keys=False):
+                 seg_dtype="uint16", formats=None, custom_keys=False, warm=False):
         self.N, self.T = N, T
         self.dims = tuple(dims)
         self.scale = tuple(scale) if scale else tuple(1 for _ in dims)
@@ -90,6 +90,9 @@ class Cfg:
         self.formats = formats          # round-trip formats of the export harness (None = csv, geff, internal)
         # attribute names chosen by the caller: time "t", position "position", track id "trk", lineage id "lin"
         self.custom_keys = custom_keys
+        # warm: before a path is replayed, every node id is used once in ANOTHER frame (linked, queried) and deleted
+        # again - whatever the object remembers per node id, track id or frame is then stale
+        self.warm = warm
         self.P = int(np.prod(self.dims)) if self.dims else 0
 
     @property
@@ -102,7 +105,7 @@ class Cfg:
                 "per_axis_pos": self.per_axis_pos, "name": self.name, "enable": self.enable,
                 "rebuild": self.rebuild, "embed": self.embed, "max_stroke": self.max_stroke, "node_shift": self.node_shift,
                 "seg_dtype": self.seg_dtype, "formats": self.formats,
-                "custom_keys": self.custom_keys}
+                "custom_keys": self.custom_keys, "warm": self.warm}
 
     @staticmethod
     def from_json(d):
@@ -182,6 +185,32 @@ class Driver:
             g.add_edge(u - nshift, v - nshift, **b)
         seg = None if tr.segmentation is None else np.array(tr.segmentation, copy=True)
         return Driver(self.cfg, graph=g, seg=seg, shift=shift, ecust=bool(rb.get("ecust")), nshift=nshift)
+
+    def warm_up(self):
+        """Use every node id once at a time point it will (mostly) not have later, link and query the nodes, then
+        delete them all: the graph is empty again, ids / counters / anything cached per id are not fresh any more."""
+        cfg = self.cfg
+        N, T = cfg.N, cfg.T
+        times = {n: (T - 1 - ((n - 1) % T)) for n in range(1, N + 1)}
+        order = sorted(times, key=lambda n: (times[n], n))
+        if cfg.has_seg:
+            for n in order:
+                self.apply([K_PAINT, times[n], 1 << ((n - 1) % cfg.P), n, 2 * n])
+        else:
+            for n in order:
+                self.apply([K_ADDNODE, n, times[n], n, 0])
+        for a, b in zip(order, order[1:]):
+            if times[a] < times[b]:
+                self.apply([K_ADDEDGE, a, b, 0, 0])
+        tr = self.tracks
+        for n in order:
+            for t in range(T):
+                tr.get_track_neighbors(tr.get_track_id(n - self.nshift), t)
+            tr.get_time(n - self.nshift)
+        for n in order:
+            self.apply([K_DELNODE, n, 0, 0, 0])
+        assert tr.graph.number_of_nodes() == 0, "warm-up must leave an empty graph"
+        self.emits = []
 
     def reconstruct(self, mode):
         """Call 12: replace self.tracks by a NEW SolutionTracks constructed from a copy of the current graph
